@@ -107,7 +107,8 @@ def simulation_verdicts(up, base):
     from efootprint.core.hardware.device import Device
     out = []
     dev2 = Device.from_defaults("dev2")
-    for k in base["ks"]:
+    dates = base["ks"] if len(base["ks"]) <= 10 else sorted(random.Random(base["ks"][0]).sample(base["ks"], 10))
+    for k in dates:
         d = datetime.fromtimestamp(k, tz=timezone.utc)
         try:
             sim = ModelingUpdate([[up.devices, [dev2]]], simulation_date=d)
